@@ -242,12 +242,19 @@ def helpers(run):
     for who, (se, sd, ae, ad) in impls.items():
         def one(data):
             std = base64.b64encode(data).rstrip(b"=")
-            run.trivial()
-            if se(data) != std or sd(std) != data or sd(std.decode()) != data:
-                viol(run, f"{who}.b64s", "roundtrip", f"{who} b64s_encode/decode differs from standard base64 for {data[:8].hex()}..", dict(data=data[:32]))
             dot = std.replace(b"+", b".")
-            if ae(data) != dot or ad(dot) != data or ad(std) != data or ad(dot.decode()) != data:
-                viol(run, f"{who}.ab64", "roundtrip", f"{who} ab64_encode/decode differs from dot-variant base64 for {data[:8].hex()}..", dict(data=data[:32]))
+            run.trivial()
+            for fam, calls in ((f"{who}.b64s", (("encode", se, data, std), ("decode-bytes", sd, std, data), ("decode-text", sd, std.decode(), data))),
+                               (f"{who}.ab64", (("encode", ae, data, dot), ("decode-bytes", ad, dot, data), ("decode-plus-bytes", ad, std, data),
+                                                ("decode-text", ad, dot.decode(), data), ("decode-plus-text", ad, std.decode(), data)))):
+                for label, fn, arg, want in calls:
+                    try:
+                        got = fn(arg)
+                    except Exception as ex:
+                        viol(run, fam, f"roundtrip|{label}|raises|{type(ex).__name__}", f"{fam} {label}({arg[:16]!r}) raised {type(ex).__name__}: {ex}", dict(data=data[:32], input=arg[:64]))
+                        continue
+                    if got != want:
+                        viol(run, fam, f"roundtrip|{label}", f"{fam} {label}({arg[:16]!r}) -> {got[:16]!r}, standard base64 under the alphabet translation says {want[:16]!r}", dict(data=data[:32], input=arg[:64]))
         for a in range(256):
             one(bytes([a]))
             for b in range(0, 256, 1 if run.tier == "thorough" else 5):
@@ -261,7 +268,8 @@ def helpers(run):
         # malformed: wrong length, characters outside the alphabet
         for fn, name in ((sd, "b64s_decode"), (ad, "ab64_decode")):
             for bad, why in ((b"a", "length-1-mod-4"), (b"abcde", "length-1-mod-4"), (b"ab!d", "invalid-char"), (b"a\x00cd", "invalid-char"), (b"ab=d", "inner-padding"),
-                             ("abéd", "non-ascii-text"), (b"ab d", "invalid-char")):
+                             ("abéd", "non-ascii-text"), (b"ab d", "invalid-char")) + tuple(
+                                 (a + x * k + b, "non-ascii-text") for a in ("", "a", "ab", "abc", "abcd", "abcde") for b in ("", "Q", "QQ") for x in "é\u0100\u20ac\U0001f600" for k in (1, 2, 3)):
                 try:
                     r = fn(bad)
                     viol(run, f"{who}.{name}", f"malformed-accepted|{why}", f"{who}.{name}({bad!r}) returned {r!r} instead of raising a value error", dict(input=bad))
